@@ -91,6 +91,8 @@ def d_tasks(msgs, tier):
             ts.append(Task('verifHarness_D_' + m.go, [0, n, 0, 0], pkg=m.pkgdir, group=m.pkgdir))
         for n in sorted(x for x in l2 if 0 <= x):
             for k in ks:
+                if k != 1 and tier != 'quick' and n not in (0, 1, sn - 1, sn, se, se + 1, 255):
+                    continue  # the second amount of appended zeros only at the boundary lengths
                 ts.append(Task('verifHarness_D_' + m.go, [1, n, k, 0], pkg=m.pkgdir, group=m.pkgdir))
         # removal of z trailing zero bytes (payload assumed to end in z zeros)
         zs = [(sn, 1), (se, 2)] if tier == 'quick' else [(sn, 1), (sn, 2), (se, 1), (se, 3), (se + 2, 2), (se + 1, se)]
